@@ -70,7 +70,7 @@ def gen_bo(tape, spec):
     n_pre = tape.int('n_pre', 2, 6) if init_form == 'precomputed' else 0
     ui = tape.choice('update_interval', [1, 3, 10, 10 ** 6])
     acq = tape.choice('acquisition', ['lcbsc', 'lcbsc_small', 'uniform', 'maxvar', 'expintvar',
-                                      'lcbsc'])
+                                      'lcbsc', 'lcbsc_cost', 'lcbsc_noprior'])
     n_acq_batches = tape.int('n_acq_batches', 1, 6)
     n_evidence = n_pre + (-(-n_init // bs)) * bs + n_acq_batches * bs
     if bs > 1 and tape.chance('ragged_request', 1, 2):
@@ -84,8 +84,13 @@ def gen_bo(tape, spec):
             'acq': acq, 'n_evidence': n_evidence, 'continue': cont,
             'async': tape.chance('async_acq', 1, 4), 'seed': sr.gen_seed(tape),
             'via_infer': tape.chance('via_infer', 1, 10),
-            'tm_order': tape.choice('surrogate_param_order', ['sorted', 'sorted', 'reversed']),
-            'bolfi': tape.chance('bolfi', 1, 3)}
+            'tm_order': tape.choice('surrogate_param_order', ['sorted', 'sorted', 'reversed',
+                                                              'default']),
+            'bolfi': tape.chance('bolfi', 1, 3),
+            # a fixed probe point is watched along the run: gradient first, then the values
+            # around it, then the value at the point itself (the last thing the acquisition
+            # object saw before the surrogate changes again)
+            'grad_probe': tape.chance('gradient_probe', 1, 3)}
 
 
 def tm_xy(tm):
@@ -93,6 +98,14 @@ def tm_xy(tm):
     if getattr(tm, '_gp', None) is None:
         return None, None
     return np.array(tm.X), np.array(tm.Y)
+
+
+def _cost(x):
+    return np.sum(np.atleast_2d(x) ** 2, axis=1)
+
+
+def _cost_grad(x):
+    return 2.0 * np.atleast_2d(x)
 
 
 class BoRun:
@@ -129,6 +142,14 @@ class BoRun:
             am = None
         elif a == 'lcbsc_small':
             am = acqm.LCBSC(tm, prior=prior, n_inits=2, max_opt_iters=5, exploration_rate=10, **kw)
+        elif a == 'lcbsc_cost':
+            # an acquisition cost added to the confidence bound, exploration set through delta
+            from elfi.methods.bo.utils import CostFunction
+            am = acqm.LCBSC(tm, prior=prior, n_inits=3, max_opt_iters=20, delta=0.3,
+                            additive_cost=CostFunction(_cost, _cost_grad, scale=0.5), **kw)
+        elif a == 'lcbsc_noprior':
+            # without a prior the optimiser's start points are uniform draws inside the bounds
+            am = acqm.LCBSC(tm, prior=None, n_inits=3, max_opt_iters=20, **kw)
         elif a == 'uniform':
             am = acqm.UniformAcquisition(tm, prior=prior, **kw)
         elif a == 'maxvar':
@@ -136,6 +157,8 @@ class BoRun:
         else:
             am = acqm.ExpIntVar(tm, prior, n_inits=3, max_opt_iters=20, n_samples=20, **kw)
         init = precomputed if cfg['init_form'] == 'precomputed' else cfg['n_init']
+        if cfg.get('tm_order') == 'default' and am is None:
+            tm = None           # BayesianOptimization builds its own surrogate from the bounds
         cls = elfi.BOLFI if cfg['bolfi'] else elfi.BayesianOptimization
         self.bo = cls(model, spec['disc'], bounds=cfg['bounds'], initial_evidence=init,
                       update_interval=cfg['update_interval'], target_model=tm,
@@ -144,7 +167,7 @@ class BoRun:
                       async_acq=cfg['async'], seed=cfg['seed'],
                       max_parallel_batches=sched['mpb'] or 3)
         self.monitor.limit = self.bo.max_parallel_batches
-        self.names = names
+        self.names = list(self.bo.target_model.parameter_names)
         self.consumed = []
         self.overrides = []
         self.acquires = []
@@ -216,6 +239,8 @@ class BoRun:
                 bo.set_objective(n_evidence)
                 while not bo.finished:
                     bo.iterate()
+                    if self.cfg.get('grad_probe'):
+                        self.probe_gradient()
                 bo.batches.cancel_pending()
         except sr.StepCap:
             self.out.inconclusive = True
@@ -225,6 +250,41 @@ class BoRun:
             return 'error'
         self.monitor.check_clean('drive(%d)' % n_evidence)
         return 'ok'
+
+
+def _probe_gradient(self):
+    """gradient-tracks-surrogate: on the LIVE acquisition object, whatever it was asked before
+    and however the surrogate changed since, evaluate_gradient(x0, t) is the derivative of
+    evaluate(., t) as it is now (central differences).  The history-dependent face of 'the
+    acquisition gradients equal the derivatives of the acquisition functions'."""
+    bo = self.bo
+    am = bo.acquisition_method
+    tm = bo.target_model
+    if type(am).__name__ != 'LCBSC' or getattr(tm, '_gp', None) is None or tm.n_evidence < 2:
+        return
+    lo = np.array([self.cfg['bounds'][p][0] for p in self.names], float)
+    hi = np.array([self.cfg['bounds'][p][1] for p in self.names], float)
+    x0 = lo + (hi - lo) * (0.37 + 0.21 * np.arange(len(lo)))
+    t = 3
+    g = np.asarray(am.evaluate_gradient(x0, t), float).ravel()
+    fd = np.zeros(len(x0))
+    for i in range(len(x0)):
+        h = 1e-5 * (hi[i] - lo[i])
+        e = np.zeros(len(x0))
+        e[i] = h
+        fd[i] = (float(np.ravel(am.evaluate(x0 + e, t))[0]) -
+                 float(np.ravel(am.evaluate(x0 - e, t))[0])) / (2 * h)
+    am.evaluate(x0, t)
+    self.out.probes['gradient_probe'] += 1
+    if g.shape != fd.shape or not np.all(np.isfinite(g)) or not np.all(np.isfinite(fd)):
+        return
+    tol = 1e-3 * max(1.0, float(np.max(np.abs(fd)))) 
+    if np.max(np.abs(g - fd)) > tol:
+        self.out.violate('gradient-tracks-surrogate', type(am).__name__, gradient=g.tolist(),
+                         central_difference=fd.tolist(), n_evidence=int(tm.n_evidence))
+
+
+BoRun.probe_gradient = _probe_gradient
 
 
 def check_bo(out, run_, cfg, precomputed, spec):
